@@ -11,6 +11,8 @@ import (
 	"golang.org/x/tools/go/ssa"
 )
 
+func lockKey(p *Ptr) string { return fmt.Sprintf("%d/%v", p.cell.id, p.path) }
+
 type nativeFn func(it *Interp, fn *ssa.Function, args []Value) Value
 
 var intercepts map[string]nativeFn
@@ -20,8 +22,7 @@ func noop(it *Interp, fn *ssa.Function, args []Value) Value { return it.zeroResu
 func init() {
 	intercepts = map[string]nativeFn{}
 	for _, n := range []string{
-		"(*sync.Mutex).Lock", "(*sync.Mutex).Unlock", "(*sync.RWMutex).Lock", "(*sync.RWMutex).Unlock",
-		"(*sync.RWMutex).RLock", "(*sync.RWMutex).RUnlock", "(*sync.WaitGroup).Add", "(*sync.WaitGroup).Done",
+		"(*sync.WaitGroup).Add", "(*sync.WaitGroup).Done",
 		"(*sync.WaitGroup).Wait", "(*sync.Cond).Broadcast", "(*sync.Cond).Signal",
 		"(*strings.Builder).copyCheck", "runtime.KeepAlive", "runtime.Gosched",
 		"(*sync.noCopy).Lock", "(*sync.noCopy).Unlock",
@@ -31,6 +32,29 @@ func init() {
 		intercepts[n] = noop
 	}
 	intercepts["(*sync.Mutex).TryLock"] = func(it *Interp, fn *ssa.Function, args []Value) Value { return it.ts.Bool(true) }
+	// Locks do not block (the engine runs one logical thread at a time) but which locks are held is tracked, so that a
+	// harness store can tell whether another goroutine could run at a storage call (vLockHeld).
+	lockOp := func(delta int) nativeFn {
+		return func(it *Interp, fn *ssa.Function, args []Value) Value {
+			if p, ok := args[0].(*Ptr); ok && p != nil && p.cell != nil {
+				if it.locks == nil {
+					it.locks = map[string]int{}
+				}
+				k := lockKey(p)
+				it.locks[k] += delta
+				if it.locks[k] < 0 {
+					it.locks[k] = 0
+				}
+			}
+			return it.zeroResults(fn)
+		}
+	}
+	intercepts["(*sync.Mutex).Lock"] = lockOp(1)
+	intercepts["(*sync.Mutex).Unlock"] = lockOp(-1)
+	intercepts["(*sync.RWMutex).Lock"] = lockOp(1)
+	intercepts["(*sync.RWMutex).Unlock"] = lockOp(-1)
+	intercepts["(*sync.RWMutex).RLock"] = lockOp(1)
+	intercepts["(*sync.RWMutex).RUnlock"] = lockOp(-1)
 
 	// sync/atomic primitives: plain loads/stores (the engine controls scheduling)
 	for _, ty := range []string{"Int32", "Int64", "Uint32", "Uint64", "Uintptr", "Pointer"} {
